@@ -33,12 +33,16 @@ def make_job(chk, rng, i):
     g, case = tokens.base_case(chk, rng, p)
     if seven:
         # keep explicit high bytes out of the patterns: the same rule set is built with -7
-        def strip(node):
-            return node
-        if any(pat.uses_high(r["pat"], gen.ctx_of(case)) or
-               (r.get("trail") is not None and pat.uses_high(r["trail"], gen.ctx_of(case)))
-               for r in case["rules"]) or any(pat.uses_high(d, gen.ctx_of(case))
-                                              for _, d in case.get("defs", [])):
+        def high(case):
+            return any(pat.uses_high(r["pat"], gen.ctx_of(case)) or
+                       (r.get("trail") is not None and pat.uses_high(r["trail"], gen.ctx_of(case)))
+                       for r in case["rules"]) or any(pat.uses_high(d, gen.ctx_of(case))
+                                                      for _, d in case.get("defs", []))
+        for _ in range(8):
+            if not high(case):
+                break
+            g, case = tokens.base_case(chk, rng, p)      # (coverage of -7 must not depend on luck)
+        else:
             seven = False
     mode = i % 3
     if mode == 0:
@@ -73,7 +77,7 @@ def make_job(chk, rng, i):
         inter = rng.choice([True, False])
         if full:
             inter = False
-        bits = 7 if (seven and rng.chance(50)) else 8
+        bits = 7 if (seven and j % 2 == 0) else 8
         array = rng.chance(40) and fl != "cxx"
         cli = rng.chance(40)
         if fl == "cxx" and "F" in tb:
